@@ -5,6 +5,7 @@ package harness
 // Building the same recipe twice gives an independent twin.
 
 import (
+	"encoding/json"
 	"errors"
 	"fmt"
 	"math"
@@ -334,6 +335,10 @@ func (r Recipe) build() any {
 		return [2]error{ErrT{Msg: "x"}, nil}
 	case "mapiface":
 		return map[string]error{"e": ErrT{Msg: r.S}}
+	case "jsonnumber":
+		return json.Number(r.N)
+	case "rawmessage":
+		return json.RawMessage(r.S)
 	case "bytes":
 		return []byte(r.S)
 	case "rune":
@@ -446,6 +451,9 @@ func hostileValues() []Recipe {
 			out = append(out, numRecipe(k, n))
 		}
 	}
+	out = append(out, numRecipe("jsonnumber", "12"), numRecipe("jsonnumber", "1.5"), numRecipe("jsonnumber", "abc"),
+		Recipe{K: "bytes", S: `{"id":5,"name":"raw"}`}, Recipe{K: "bytes", S: `[1,2]`}, Recipe{K: "bytes", S: `"str"`}, Recipe{K: "bytes", S: ""},
+		Recipe{K: "rawmessage", S: `{"id":6,"name":"rm"}`}, Recipe{K: "string", S: `{"id":7}`})
 	for _, k := range []string{"MyInt", "rune", "uintptr"} {
 		out = append(out, numRecipe(k, "5"))
 	}
@@ -490,7 +498,7 @@ func genRecipe(rt *rapid.T, depth int) Recipe {
 	leaf := []string{"nil", "int", "int8", "int16", "int32", "int64", "uint", "uint8", "uint16", "uint32", "uint64", "float32", "float64",
 		"string", "bool", "MyInt", "MyStr", "MyFloat", "MyBool", "nilptr", "nilmap", "nilmapint", "nilslice", "nilanyslice", "nilfunc", "nilchan", "nilerr",
 		"func", "func2", "chan", "Tagged", "TaggedPtr", "Loose", "Partial", "WithSlice", "TaggedSlice", "ErrT", "error", "StrT", "KeyT", "complex", "bytes", "rune", "uintptr",
-		"mapint", "mapintkey", "mapstructkey", "MyMap", "MySlice", "Rec", "intslice", "strslice", "f64slice", "errslice", "stringerslice", "nilerrslice", "ifacearray", "mapiface"}
+		"jsonnumber", "rawmessage", "mapint", "mapintkey", "mapstructkey", "MyMap", "MySlice", "Rec", "intslice", "strslice", "f64slice", "errslice", "stringerslice", "nilerrslice", "ifacearray", "mapiface"}
 	comp := []string{"anyslice", "typedslice", "array", "map", "struct", "ptr", "mapslice"}
 	var k string
 	if depth <= 0 || uniform(rt, 3, "leaf") > 0 {
@@ -507,7 +515,7 @@ func genRecipe(rt *rapid.T, depth int) Recipe {
 	default:
 		r.N = hostileInts[uniform(rt, len(hostileInts), "i")]
 	}
-	r.S = rapid.SampledFrom([]string{"", "a", "é", "name", "12"}).Draw(rt, "s")
+	r.S = rapid.SampledFrom([]string{"", "a", "é", "name", "12", `{"id":5,"name":"raw"}`, `[1]`}).Draw(rt, "s")
 	r.B = rapid.Bool().Draw(rt, "b")
 	switch k {
 	case "anyslice", "typedslice", "array", "struct", "ptr", "mapslice", "map":
